@@ -413,7 +413,8 @@ def gen_c07(rng):
             vals[0] = rand_value(rng, mk, allow_sentinel=False)
             if not isvalid(vals[0]):
                 return gen_c07(rng)
-            hist[-1 if k >= len(pix) else -2]['values'][0] = vals[0]
+            first_fill = [st0 for st0 in hist if st0.get('op') == 'upd' and st0.get('h') == 0][0]
+            first_fill['values'][0] = vals[0]
         if rng.random() < 0.5:
             rng.shuffle(order)
         wv = [rng.choice([0.5, 1.0, 2.0, 4.0, 0.25]) for _ in pix]
